@@ -428,6 +428,70 @@ def mapping_cases():
                 yield {'leg': 'mapping', 'what': what, 'mode': mode, 'procs': 2, 'outcome': oc}
 
 
+class ThreadModelA(Core.Model):
+    def __init__(self, a=0):
+        super().__init__(seed=1)
+        self.value = 10 * a
+        self.complete()
+
+
+class ThreadModelB(Core.Model):
+    def __init__(self, k=0, j=0):
+        super().__init__(seed=2)
+        self.value = -(100 * k + j)
+        self.complete()
+
+
+def value_score(model):
+    return model.value
+
+
+def neg_score(model):
+    return -model.value + 0.5
+
+
+def two_searches_case(case):
+    """Two serial searches by two threads (two studies in one process), the second cutting into the first at every line of
+    library code it executes (E5): each search evaluates its own model class with its own scoring, repetitions and mode."""
+    from mc.engine import preempt
+
+    small = bool(case.get('two_cuts'))        # (the two-preemption product is explored on a smaller pair of searches)
+    grid_a = {'a': [3, 1]} if small else {'a': [3, 1, 2]}
+    grid_b = {'k': [1, 2], 'j': 5} if small else {'k': [1, 2], 'j': [5, 6]}
+    reps_a, reps_b = (1, 2) if small else (2, 3)
+
+    def make():
+        reset_library()
+        fa = lambda: Batching.grid_search(ThreadModelA, dict(grid_a), value_score, repetitions=reps_a, mode=ScoreMode.MIN)      # noqa
+        fb = lambda: Batching.grid_search(ThreadModelB, dict(grid_b), neg_score, repetitions=reps_b,                             # noqa
+                                          mode=ScoreMode.MAX_SUM)
+        return (fa, fb) if case['first'] == 'a' else (fb, fa)
+    exp_a = ([({'a': a}, [10 * a] * reps_a, 10 * a) for a in grid_a['a']], 1)
+    js = grid_b['j'] if isinstance(grid_b['j'], list) else [grid_b['j']]
+    exp_b = ([({'k': k, 'j': j}, [100 * k + j + 0.5] * reps_b, reps_b * (100 * k + j + 0.5)) for k in (1, 2) for j in js],
+             len(js) * 2 - 1)
+
+    def shape(res):
+        best, results = res
+        return ([({k: v for k, v in r.items() if k not in ('records', 'score')}, list(r['records']), r['score']) for r in results],
+                next(i for i, r in enumerate(results) if r is best))
+
+    def judge(k, box_a, box_b):
+        boxes = {'a': box_a, 'b': box_b} if case['first'] == 'a' else {'a': box_b, 'b': box_a}
+        for who, exp in (('a', exp_a), ('b', exp_b)):
+            box = boxes[who]
+            got = None if box.error is not None else shape(box.value)
+            if got != exp:
+                raise Violation(f'two searches on two threads (the {"second" if who != case["first"] else "first"} one is search '
+                                f'{who}): search {who} gave a wrong outcome when the other cut in at line event {k}',
+                                expected=exp, observed=repr(box.error) if box.error is not None else got)
+    if case.get('two_cuts'):
+        # two preemptions, at the library's function entries: the first search is cut, the second is started and held
+        # half-way, the first finishes, the second finishes
+        return preempt.check_pair2(make, lambda k, j, a, b: judge((k, j), a, b), case.get('kj'))
+    return preempt.check_pair(make, judge, case.get('k'))
+
+
 def traits_case(case):
     reset_library()
     procs, oc = case['procs'], case.get('outcome')
@@ -925,6 +989,19 @@ def run(ctx):
         # real pools fork: run these from the parent, one after the other (deterministic: staleness, not timing)
         chunk_fn(ctx, pr + [{'leg': 'reused_list', 'procs': 2}, {'leg': 'source_dict', 'procs': 2}])
         ctx.leg('pool_reuse_real_pool', sequences=len(pr))
+    if not ctx.violations and not ctx.small:
+        ns = 0
+        for first in ('a', 'b'):
+            for two in (False, True):
+                case = {'leg': 'two_searches', 'first': first, 'two_cuts': two}
+                ctx.traces += 1
+                try:
+                    ns += hbfs._guard(two_searches_case, case)
+                except Violation as v:
+                    ctx.report(dict(case, kj=v.case_kj) if hasattr(v, 'case_kj') else dict(case, k=getattr(v, 'case_k', 0)), v)
+        ctx.transitions += ns
+        ctx.leg('two_searches', schedules=ns, note='E5: two serial searches on two threads; one preemption at every library line, two preemptions at '
+                                                   'every pair of library function entries')
     ctx.leg('serial', searches=len(ser))
     ctx.leg('schedule', searches=len(sc))
     for c in (ser[len(ser) // 3], ser[-1], sc[len(sc) // 2]):
@@ -946,6 +1023,9 @@ def replay(case):
         return
     if case['leg'] == 'mapping':
         hbfs._guard(mapping_case, case)
+        return
+    if case['leg'] == 'two_searches':
+        hbfs._guard(two_searches_case, case)
         return
     if case['leg'] == 'start_method':
         hbfs._guard(start_method_case, case)
